@@ -56,6 +56,8 @@ use parquet::file::properties::WriterProperties;
 use std::sync::Arc;
 
 use crate::config::DurabilityMode;
+#[cfg(feature = "verif-hooks")]
+use crate::verif_hooks as vh;
 
 /// Configuration for the persist layer
 #[derive(Debug, Clone)]
@@ -387,6 +389,8 @@ impl FilePersist {
     /// Used when WAL size exceeds the configured limit.
     fn flush_all(&self) -> StorageResult<()> {
         let dirty_shards: Vec<String> = {
+            #[cfg(feature = "verif-hooks")]
+            vh::before_lock("persist.flush_all.shards", &|| self.shards.is_locked_exclusive());
             let shards = self.shards.read();
             shards
                 .iter()
@@ -413,11 +417,15 @@ impl PersistBackend for FilePersist {
         match self.config.durability_mode {
             DurabilityMode::Immediate => {
                 // Write to WAL with immediate sync (safest)
+                #[cfg(feature = "verif-hooks")]
+                vh::before_lock("persist.append.wal", &|| self.wal.is_locked());
                 let mut wal = self.wal.lock();
                 wal.append_batch(shard, updates)?;
             }
             DurabilityMode::Batched => {
                 // Write to WAL without sync (faster, batched durability)
+                #[cfg(feature = "verif-hooks")]
+                vh::before_lock("persist.append.wal", &|| self.wal.is_locked());
                 let mut wal = self.wal.lock();
                 wal.append_batch_buffered(shard, updates)?;
             }
@@ -429,6 +437,8 @@ impl PersistBackend for FilePersist {
 
         // Add to buffer
         let should_flush = {
+            #[cfg(feature = "verif-hooks")]
+            vh::before_lock("persist.append.shards", &|| self.shards.is_locked());
             let mut shards = self.shards.write();
             let state = shards
                 .entry(shard.to_string())
@@ -449,11 +459,15 @@ impl PersistBackend for FilePersist {
             state.buffer.len() >= self.config.buffer_size
         };
 
+        #[cfg(feature = "verif-hooks")]
+        vh::yield_point("persist.append.buffered");
         // Flush if buffer is full
         if should_flush {
             self.flush(shard)?;
         } else if self.config.max_wal_size_bytes > 0 {
             // Check WAL size - force flush all dirty shards if WAL is too large
+            #[cfg(feature = "verif-hooks")]
+            vh::before_lock("persist.append.wal_size", &|| self.wal.is_locked());
             let wal_size = self.wal.lock().file_size();
             if wal_size > self.config.max_wal_size_bytes {
                 tracing::info!(
@@ -469,6 +483,8 @@ impl PersistBackend for FilePersist {
     }
 
     fn read(&self, shard: &str, since: u64) -> StorageResult<Vec<Update>> {
+        #[cfg(feature = "verif-hooks")]
+        vh::before_lock("persist.read.shards", &|| self.shards.is_locked_exclusive());
         let shards = self.shards.read();
 
         let state = shards
@@ -495,6 +511,8 @@ impl PersistBackend for FilePersist {
         // Flush first to ensure all data is in batches
         self.flush(shard)?;
 
+        #[cfg(feature = "verif-hooks")]
+        vh::before_lock("persist.compact.shards", &|| self.shards.is_locked());
         let mut shards = self.shards.write();
         let state = shards
             .get_mut(shard)
@@ -532,11 +550,15 @@ impl PersistBackend for FilePersist {
             });
         }
 
+        #[cfg(feature = "verif-hooks")]
+        vh::yield_point("persist.compact.batch_written");
         // Step 2: Update metadata atomically (write-to-temp+rename in save_shard_meta)
         // After this succeeds, metadata points to the new batch only.
         state.meta.advance_since(new_since);
         self.save_shard_meta(&state.meta)?;
 
+        #[cfg(feature = "verif-hooks")]
+        vh::yield_point("persist.compact.meta_saved");
         // Step 3: Delete old batch files LAST (safe - metadata no longer references them)
         // If we crash here, we have orphaned files but no data loss.
         for batch_ref in &old_batches {
@@ -552,11 +574,15 @@ impl PersistBackend for FilePersist {
     }
 
     fn list_shards(&self) -> StorageResult<Vec<String>> {
+        #[cfg(feature = "verif-hooks")]
+        vh::before_lock("persist.list_shards.shards", &|| self.shards.is_locked_exclusive());
         let shards = self.shards.read();
         Ok(shards.keys().cloned().collect())
     }
 
     fn shard_info(&self, shard: &str) -> StorageResult<ShardInfo> {
+        #[cfg(feature = "verif-hooks")]
+        vh::before_lock("persist.shard_info.shards", &|| self.shards.is_locked_exclusive());
         let shards = self.shards.read();
         let state = shards
             .get(shard)
@@ -565,6 +591,8 @@ impl PersistBackend for FilePersist {
     }
 
     fn ensure_shard(&self, shard: &str) -> StorageResult<()> {
+        #[cfg(feature = "verif-hooks")]
+        vh::before_lock("persist.ensure_shard.shards", &|| self.shards.is_locked());
         let mut shards = self.shards.write();
         if !shards.contains_key(shard) {
             let meta = ShardMeta::new(shard.to_string());
@@ -581,11 +609,15 @@ impl PersistBackend for FilePersist {
     }
 
     fn sync(&self) -> StorageResult<()> {
+        #[cfg(feature = "verif-hooks")]
+        vh::before_lock("persist.sync.wal", &|| self.wal.is_locked());
         let mut wal = self.wal.lock();
         wal.sync()
     }
 
     fn flush(&self, shard: &str) -> StorageResult<()> {
+        #[cfg(feature = "verif-hooks")]
+        vh::before_lock("persist.flush.shards", &|| self.shards.is_locked());
         let mut shards = self.shards.write();
         let state = shards
             .get_mut(shard)
@@ -607,6 +639,8 @@ impl PersistBackend for FilePersist {
             len: batch.len(),
         };
 
+        #[cfg(feature = "verif-hooks")]
+        vh::yield_point("persist.flush.batch_written");
         // Step 2: Update metadata and save atomically
         state.meta.add_batch(batch_ref);
         state.buffer.clear();
@@ -619,6 +653,8 @@ impl PersistBackend for FilePersist {
 
         // Step 3: Remove WAL entries LAST (safe - metadata already points to batch)
         {
+            #[cfg(feature = "verif-hooks")]
+            vh::before_lock("persist.flush.wal", &|| self.wal.is_locked());
             let mut wal = self.wal.lock();
             wal.remove_shard_entries(shard)?;
         }
@@ -635,12 +671,16 @@ impl PersistBackend for FilePersist {
 
         // Step 1: move everything the shard has into batch files, so that it owns no WAL
         // entries and the metadata alone describes it.
+        #[cfg(feature = "verif-hooks")]
+        vh::before_lock("persist.delete_shard.check", &|| self.shards.is_locked_exclusive());
         if self.shards.read().contains_key(shard) {
             self.flush(shard)?;
         }
 
         // Step 2: Remove from in-memory shard map (fast, under write lock)
         let removed_state = {
+            #[cfg(feature = "verif-hooks")]
+            vh::before_lock("persist.delete_shard.shards", &|| self.shards.is_locked());
             let mut shards = self.shards.write();
             shards.remove(shard)
         }; // write lock released - other shards unblocked
@@ -649,10 +689,14 @@ impl PersistBackend for FilePersist {
         // after the flush unless a writer raced with the drop).
         // Other shards' WAL data is PRESERVED (no need to flush them)
         {
+            #[cfg(feature = "verif-hooks")]
+            vh::before_lock("persist.delete_shard.wal", &|| self.wal.is_locked());
             let mut wal = self.wal.lock();
             wal.remove_shard_entries(shard)?;
         }
 
+        #[cfg(feature = "verif-hooks")]
+        vh::yield_point("persist.delete_shard.wal_filtered");
         // Step 4: Delete the metadata file: the commit point of the drop.
         let meta_path = self
             .config
@@ -664,6 +708,8 @@ impl PersistBackend for FilePersist {
             sync_directory(&self.config.path.join("shards"));
         }
 
+        #[cfg(feature = "verif-hooks")]
+        vh::yield_point("persist.delete_shard.meta_removed");
         // Step 5: Delete the batch files LAST. If we crash here they are unreferenced and
         // cleanup_orphaned_batches() removes them at the next startup.
         if let Some(ref state) = removed_state {
